@@ -24,7 +24,7 @@ open Scc.Heap.Refine (HRef imgW fieldImg kindB href_load_full loadAbs live_heade
 
 /-! ## decoding what the machine holds after `load` -/
 
-variable {mc : MonCfg} {α : Word → Word}
+variable {mc : MonCfg} {cw : Nat → Word} {τ : Nat → Nat → Word}
 
 theorem kindB_eq (f : Abs.Field) : kindB f = (f.chi != Chi.ext) := rfl
 
@@ -82,11 +82,12 @@ theorem envFields_decode {μ : MState} {ι : Nat → Nat} : ∀ (Δ : Ctx) (k : 
 
 /-! ## `load` -/
 
+
 /-- THE ABSTRACT `load` (at least one field) AGAINST `Memory::load` -/
 theorem load_x3 {la : String → Option Nat}
     {Γ' Δ : Ctx} {b : Binding} {cfg cfg4 cfg' : Config} {hs : HState} {ι : Nat → Nat} {st : State}
     {r : Word} {o : Obj} {h' : Heap}
-    (X : X3 mc α (Γ' ++ [b]) cfg hs ι st) (hb : b.chi ≠ .ext)
+    (X : X3 mc cw τ (Γ' ++ [b]) cfg hs ι st) (hb : b.chi ≠ .ext)
     (hr : cfg.temps.get (2 * Γ'.length) = some r) (hr0 : r ≠ 0)
     (hg : cfg.heap.get r.toNat = some o)
     (hk : o.fields.map (·.chi) = Mock.kindsOf Δ) (hne : o.fields ≠ [])
@@ -99,7 +100,7 @@ theorem load_x3 {la : String → Option Nat}
     (kk : Nat) :
     ∃ code kk', (load Δ Γ').run kk = .ok (code, kk') ∧ MemFree code ∧ Code.LAB "cleanup" ∉ code ∧
       ∃ st' hs', execFwd mc la code st = .ok (st', .fall) ∧
-        X3 mc α (Γ' ++ Δ) cfg' hs' ι st' ∧ FrLe hs hs' 0 := by
+        X3 mc (loadCw cw Γ'.length (τ r.toNat)) τ (Γ' ++ Δ) cfg' hs' ι st' ∧ FrLe hs hs' 0 := by
   have hlenΔ : Δ.length = o.fields.length := by
     have := congrArg List.length hk
     simpa [Mock.kindsOf] using this.symm
@@ -114,12 +115,12 @@ theorem load_x3 {la : String → Option Nat}
     have h1 : (b.chi != Chi.ext) = true := (Scc.Backend.Sim2.chi_bne_ext _).mpr hb
     have h2 : (r != 0) = true := by rw [bne_iff_ne]; exact hr0
     simp only [h1, hr, h2, if_true]
-  have R0 : HRef (trHeap α cfg.heap) (roots Γ' cfg.temps ++ [r.toNat]) cfg.next hs ι := by
+  have R0 : HRef (trHeap τ cfg.heap) (roots Γ' cfg.temps ++ [r.toNat]) cfg.next hs ι := by
     rw [← hroots]; exact X.href
-  have hg' : (trHeap α cfg.heap).get r.toNat = some (trO α o) := by rw [trHeap_get, hg]; rfl
+  have hg' : (trHeap τ cfg.heap).get r.toNat = some (trO τ r.toNat o) := by rw [trHeap_get, hg]; rfl
   obtain ⟨h'', hs', hlo', hop, R1, hfr, hsame, hfront⟩ := href_load_full R0 hg'
-  have hh'' : h'' = trHeap α h' := by
-    have := trHeap_loadAbs (α := α) hlo
+  have hh'' : h'' = trHeap τ h' := by
+    have := trHeap_loadAbs (τ := τ) hlo
     rw [hlo'] at this
     injection this
   subst hh''
@@ -129,11 +130,10 @@ theorem load_x3 {la : String → Option Nat}
   have hpwn : (imgWord ι r).toNat = ι r.toNat := by
     rw [imgWord_toNat (fun _ => hrlt.1)]
     unfold imgW; rw [if_neg hr0]
-  have hkinds : Δ.map kindOf = (trO α o).fields.map kindB := by
-    rw [trO_fields, List.map_map]
-    have : o.fields.map (kindB ∘ trF α) = (o.fields.map (·.chi)).map (fun c => c != Chi.ext) := by
-      rw [List.map_map]; rfl
-    rw [this, hk]
+  have hkinds : Δ.map kindOf = (trO τ r.toNat o).fields.map kindB := by
+    have h1 : ∀ fs : List Abs.Field, fs.map kindB = (fs.map (·.chi)).map (fun c => c != Chi.ext) := by
+      intro fs; rw [List.map_map]; rfl
+    rw [h1, trO_chi, hk]
     simp [Mock.kindsOf, kindOf]
   obtain ⟨code, kk', hrun, hle, hlabs, st', hx, B', HR', hE, FT⟩ :=
     load_contract (la := la) X.bnd X.hrel (toLoad := Δ) (existing := Γ')
@@ -147,19 +147,19 @@ theorem load_x3 {la : String → Option Nat}
         · refine live_header_lt I (by rw [hsame.limit]; exact hlim) ?_ hal
           rw [List.length_map, List.length_append]
           have h1 := roots_length_le cfg.temps Γ'
-          have h2 := children_length_le (trO α o)
-          rw [trO_fields, List.length_map] at h2
+          have h2 := children_length_le (trO τ r.toNat o)
+          rw [trO_fields_length] at h2
           omega) kk
   -- the loaded positions on the machine
-  have hchild_lt : ∀ f ∈ (trO α o).fields, f.chi ≠ .ext → f.ptr ≠ 0 → ι f.ptr.toNat < 2 ^ 64 := by
+  have hchild_lt : ∀ f ∈ (trO τ r.toNat o).fields, f.chi ≠ .ext → f.ptr ≠ 0 → ι f.ptr.toNat < 2 ^ 64 := by
     intro f hf hc hp
-    have hm : f.ptr.toNat ∈ (trO α o).children := Scc.Backend.Sim2.mem_children hf hc hp
+    have hm : f.ptr.toNat ∈ (trO τ r.toNat o).children := Scc.Backend.Sim2.mem_children hf hc hp
     obtain ⟨oc, hoc⟩ := href_root_mem R1 (List.mem_append.2 (Or.inr hm))
     have h1 := href_head_lt R1 hoc
     have h2 := hsame.limit
     simp only at h1
     omega
-  have hdec := envFields_decode (ι := ι) Δ Γ'.length (trO α o).fields (by rw [trO_fields, List.map_map]; exact hk)
+  have hdec := envFields_decode (ι := ι) Δ Γ'.length (trO τ r.toNat o).fields (by rw [trO_chi]; exact hk)
     hE hchild_lt
   have hkeep : ∀ t, t < 2 * Γ'.length → rv st' t = rv st t := by
     intro t ht
@@ -195,6 +195,8 @@ theorem load_x3 {la : String → Option Nat}
       rw [hkeep _ (by omega), List.getElem_append_left hin]
       have := X.words i (by simp; omega) a ha
       rw [List.getElem_append_left hin] at this
+      simp only [loadCw]
+      rw [if_pos hin]
       exact this
     · obtain ⟨j, rfl⟩ : ∃ j, i = Γ'.length + j := ⟨i - Γ'.length, by omega⟩
       have hj : j < o.fields.length := by omega
@@ -204,8 +206,10 @@ theorem load_x3 {la : String → Option Nat}
       rw [List.getElem_append_right (by omega)]
       simp only [Nat.add_sub_cancel_left]
       rw [hchiΔ j hj]
-      have := (hdec j (by rw [trO_fields, List.length_map]; exact hj)).1
-      simp only [trO_fields, List.getElem_map] at this
+      have := (hdec j (by rw [trO_fields_length]; exact hj)).1
+      simp only [trO_fields, trFieldsP_getElem _ _ _ _ hj] at this
+      simp only [loadCw, Nat.zero_add] at this ⊢
+      rw [if_neg (by omega), Nat.add_sub_cancel_left]
       exact this
   · intro i hi hc r' hr'
     simp only [List.length_append] at hi
@@ -223,13 +227,13 @@ theorem load_x3 {la : String → Option Nat}
       rw [hptrσ j hj, hce] at hr'
       simp only [Bool.false_eq_true, if_false, Option.some.injEq] at hr'
       subst hr'
-      have := (hdec j (by rw [trO_fields, List.length_map]; exact hj)).2
-      simp only [trO_fields, List.getElem_map] at this
+      have := (hdec j (by rw [trO_fields_length]; exact hj)).2
+      simp only [trO_fields, trFieldsP_getElem _ _ _ _ hj] at this
       exact this hc
-  · show HRef (trHeap α cfg'.heap) (roots (Γ' ++ Δ) cfg'.temps) cfg'.next hs' ι
+  · show HRef (trHeap τ cfg'.heap) (roots (Γ' ++ Δ) cfg'.temps) cfg'.next hs' ι
     have e1 : cfg'.heap = h' := by rw [hcfg']
     have e2 : cfg'.next = cfg.next := by rw [hcfg']; exact h4next
-    have e3 : roots (Γ' ++ Δ) cfg'.temps = roots Γ' cfg.temps ++ (trO α o).children := by
+    have e3 : roots (Γ' ++ Δ) cfg'.temps = roots Γ' cfg.temps ++ (trO τ r.toNat o).children := by
       unfold roots
       rw [roots_go_append, Nat.zero_add]
       congr 1
